@@ -83,6 +83,14 @@ func Harness_C01_store_save() {
 	uGen.Init(1, []byte("0123456789abcdef"))
 	seq := a.topicSeq + 1
 	msg := &types.Message{SeqId: seq, Topic: "grpAAAAAAAAAAB", From: types.Uid(7).String(), Content: "x"}
+	// an ordinary message, an edit / call-status replacement of an earlier one, or a message with other headers:
+	// each of them consumes a number and must raise the stored high-water mark
+	switch verifChoose("head", 3) {
+	case 1:
+		msg.Head = map[string]any{"replace": ":1", "webrtc": "finished"}
+	case 2:
+		msg.Head = map[string]any{"mime": "text/x-drafty", "forwarded": "grpX:3"}
+	}
 	// the message may list an attachment (one more adapter call: linking)
 	var atts []string
 	if verifNondetBool("withAttachment") {
